@@ -302,11 +302,13 @@ func (c *config[R]) WithRandomDelay(delayMin time.Duration, delayMax time.Durati
 
 func (c *config[R]) WithJitter(jitter time.Duration) RetryPolicyBuilder[R] {
 	c.jitter = jitter
+	c.jitterFactor = 0
 	return c
 }
 
 func (c *config[R]) WithJitterFactor(jitterFactor float32) RetryPolicyBuilder[R] {
 	c.jitterFactor = jitterFactor
+	c.jitter = 0
 	return c
 }
 
